@@ -1,5 +1,6 @@
 #!/venv/bin/python
-"""Regenerate every Extracted/*.lean (used by setup; each check re-runs the extractors it needs)."""
+"""Regenerate every Extracted/*.lean and the library root EinxModel.lean (used by setup; each check re-runs
+the extractors it needs)."""
 import os
 import sys
 sys.path.insert(0, os.path.dirname(os.path.abspath(__file__)))
@@ -8,6 +9,14 @@ from lib import core
 import extract
 
 ctx = core.Ctx("SETUP", "quick", 0)
-extract.run_all(ctx, ["Registry"] + [n for n in ("Kernels", "Notation", "Facts") if os.path.exists(os.path.join(os.path.dirname(os.path.abspath(__file__)), "extract", n.lower() + ".py"))])
+extract.run_all(ctx, extract.available())
 for b in ctx.broken:
     print("extract: lost anchor", b)
+# library root: import every module under EinxModel/
+mods = []
+for d, _, fs in os.walk(os.path.join(core.LEAN, "EinxModel")):
+    for f in fs:
+        if f.endswith(".lean"):
+            rel = os.path.relpath(os.path.join(d, f), core.LEAN)[:-5]
+            mods.append(rel.replace(os.sep, "."))
+core.write_if_changed(os.path.join(core.LEAN, "EinxModel.lean"), "".join(f"import {m}\n" for m in sorted(mods)))
